@@ -738,9 +738,11 @@ func c09(r *ev.Run) {
 	}
 	c09Limit(r, e, rnd)
 	runAPIPart(r, "listener", false, nil, 10*time.Minute)
+	runAPIPart(r, "controller", false, nil, 15*time.Minute)
 	r.Sample(map[string]interface{}{"cases": len(cases), "example": cases[len(cases)/2]})
 	r.Require("placements_judged", int64(len(cases)/2))
 	r.Require("limit_bursts", 60)
+	r.Require("controller_rounds_judged", 4)
 }
 
 // c09Limit: with limit L, connections under the limit are always served, never more than L are served at once, and a slot freed by a
